@@ -273,6 +273,9 @@ def r6_partition_loops(ctx, krate="cascette_formats", floor=1):
 
 
 def run(ctx):
+    # E-names (rules/siblingfield.py): a local named after one field of a struct is not computed from its sibling
+    from . import siblingfield
+    siblingfield.rule_names(ctx, "C08.R7", ["cascette_formats"])
     r6_partition_loops(ctx)
     # E-bitfield (rules/bitfield.py): the fields of a packed word partition it (mask == 2^shift - 1)
     from . import bitfield
